@@ -29,6 +29,42 @@ type Ramp struct {
 	// Big: the first batches are as large as the id width allows and all
 	// fresh, until the id universe is past 65,535 + a margin
 	Big bool
+	// Fan: distinct string attribute values per item (all string values of an
+	// attribute table share ONE dictionary column, so with Fan > 1 the related
+	// record crosses a limit while the main record does not)
+	Fan int
+	// PlainPct: percent of batches whose items carry no attributes, events,
+	// links or exemplars (related payload types disappear and come back)
+	PlainPct int
+	plain    bool // the batch being built
+	// Boundary: batches may have up to exactly 65,535 ids (otherwise a margin
+	// is kept below the id width)
+	Boundary bool
+}
+
+// NewBoundaryRamp builds batches with exactly (or just below) 65,535
+// attribute-bearing parents: the largest batch inside the domain of the
+// round-trip properties.
+func NewBoundaryRamp(t *rapid.T) *Ramp {
+	r := &Ramp{T: t, Reuse: 1, Containers: 1, Boundary: true, Fan: 1}
+	r.Sizes = []int{65535, 65535, 65534, 40000, 32768}
+	r.Fresh = []int{100, 100, 10}
+	r.Wide = rapid.IntRange(0, 3).Draw(t, "wide") == 0
+	return r
+}
+
+// NewFanRamp is the plan in which the RELATED records cross the 16-bit limit
+// while the main record stays far below it: 4 or 8 distinct string values per
+// item in one attribute table, batches of 9,000-17,000 items, interspersed
+// with small and attribute-less batches.
+func NewFanRamp(t *rapid.T) *Ramp {
+	r := &Ramp{T: t, Reuse: 1, Containers: 1}
+	r.Fan = rapid.SampledFrom([]int{4, 8}).Draw(t, "fan")
+	r.Sizes = []int{17000, 9000, 300, 3, 17000}
+	r.Fresh = []int{100, 100, 50}
+	r.PlainPct = 25
+	r.Wide = rapid.IntRange(0, 3).Draw(t, "wide") == 0
+	return r
 }
 
 // NewRamp draws the stream-level plan.
@@ -48,9 +84,17 @@ func NewRamp(t *rapid.T, big bool) *Ramp {
 		// first entries are favoured by rapid: make crossing 65,535 distinct
 		// values the common case - cumulatively (60000 + 40000 + ...), because a
 		// single batch must stay within the 65,535 parents of the id width
-		r.Sizes = []int{60000, 40000, 20000, 300, 1}
+		r.Sizes = []int{60000, 40000, 20000, 300, 1, 0}
 	}
 	r.Wide = rapid.Bool().Draw(t, "wide")
+	r.Fan = rapid.SampledFrom([]int{1, 1, 2, 4}).Draw(t, "fan")
+	if big {
+		// a 65,000-item batch with four string attributes per item, event and
+		// link needs more Arrow memory than a default consumer may use
+		// (70 MiB): it would be refused, correctly (C14)
+		r.Fan = 1
+	}
+	r.PlainPct = rapid.SampledFrom([]int{0, 10, 30}).Draw(t, "plainpct")
 	r.Containers = rapid.SampledFrom([]int{1, 1, 3, 300}).Draw(t, "containers")
 	if big {
 		r.Containers = 1
@@ -72,9 +116,14 @@ func (r *Ramp) pct(label string, p int) bool {
 
 // ids draws the ids of one batch: n ids, a fraction of them fresh.
 func (r *Ramp) ids() []int {
+	r.plain = r.PlainPct > 0 && r.pct("plain", r.PlainPct)
 	n := rapid.SampledFrom(r.Sizes).Draw(r.T, "rampn")
 	fresh := rapid.SampledFrom(r.Fresh).Draw(r.T, "freshpct")
-	if r.Big && r.Next < 70000 && r.pct("bigcross", 85) {
+	if r.Big && r.Next == 0 && r.pct("smallfirst", 25) {
+		// open the sub-streams with a small batch; the crossing then happens on
+		// streams that exist already
+		n, fresh = rapid.SampledFrom([]int{3, 300, 1}).Draw(r.T, "smalln"), 100
+	} else if r.Big && r.Next < 70000 && r.pct("bigcross", 85) {
 		// scripted start: crossing 65,535 distinct values is the point of the
 		// big plan, leaving it to the size pool made it a 1-in-12 event
 		n, fresh = 65000, 100
@@ -83,7 +132,11 @@ func (r *Ramp) ids() []int {
 			n = 65535 - r.Next + rapid.IntRange(-1, 1).Draw(r.T, "edge")
 		}
 	}
-	if max := 65000 / r.Reuse; n > max {
+	limit := 65000
+	if r.Boundary {
+		limit = 65535
+	}
+	if max := limit / r.Reuse; n > max {
 		n = max // domain: at most 65,535 attribute-bearing parents per batch
 	}
 	out := make([]int, 0, n)
@@ -114,9 +167,15 @@ func (r *Ramp) ids() []int {
 }
 
 func (r *Ramp) attrs(m pcommon.Map, id int) {
+	if r.plain {
+		return
+	}
 	s := strconv.Itoa(id)
 	m.PutStr("k", "v"+s)
 	m.PutInt("i", int64(id))
+	for f := 1; f < r.Fan; f++ {
+		m.PutStr("k"+strconv.Itoa(f), "v"+strconv.Itoa(f)+"_"+s)
+	}
 	if r.Wide {
 		m.PutStr("k"+strconv.Itoa(id%300), "w")
 		m.PutDouble("d", float64(id)+0.5)
@@ -160,6 +219,9 @@ func (r *Ramp) Traces() ptrace.Traces {
 			sp.SetStartTimestamp(pcommon.Timestamp(1000 + id))
 			sp.SetEndTimestamp(pcommon.Timestamp(2000 + 2*id))
 			r.attrs(sp.Attributes(), id)
+			if r.plain {
+				continue
+			}
 			ev := sp.Events().AppendEmpty()
 			ev.SetName("e" + s)
 			ev.SetTimestamp(pcommon.Timestamp(1500 + id))
@@ -248,7 +310,7 @@ func (r *Ramp) Metrics() pmetric.Metrics {
 				dp.SetIntValue(int64(id))
 				dp.SetTimestamp(pcommon.Timestamp(1000 + id))
 				r.attrs(dp.Attributes(), id)
-				if r.Wide {
+				if r.Wide && !r.plain {
 					ex := dp.Exemplars().AppendEmpty()
 					ex.SetIntValue(int64(id))
 					r.attrs(ex.FilteredAttributes(), id)
